@@ -178,11 +178,13 @@ pub struct Plan {
     pub prefixes: usize,
     /// targeted families (G9): None = off, Some(level)
     pub g9: Option<usize>,
+    /// sparse long-field sweep: (field lengths, values, position stride)
+    pub g3_long: Option<(Vec<usize>, Vec<u8>, usize)>,
 }
 
 impl Plan {
     pub fn empty() -> Plan {
-        Plan { g1: false, g2_all: vec![], g2_small: vec![], g3: vec![], g4_line: 0, g4_hdr: 0, g5: 0, g6: 0, g8: false, lenient: 25, max_field: 300, prefixes: 0, g9: None }
+        Plan { g1: false, g2_all: vec![], g2_small: vec![], g3: vec![], g4_line: 0, g4_hdr: 0, g5: 0, g6: 0, g8: false, lenient: 25, max_field: 300, prefixes: 0, g9: None, g3_long: None }
     }
 }
 
@@ -251,6 +253,29 @@ pub fn stream(kind: Kind, plan: &Plan, seed: u64, f: &mut dyn FnMut(&[u8], Tag))
                             }
                         }
                     }
+                }
+            }
+        }
+    }
+    if let Some((lens, values, stride)) = &plan.g3_long {
+        let fields: &[gen::Field] = match kind {
+            Kind::Req => &[gen::Field::Target, gen::Field::Value, gen::Field::Name],
+            Kind::Resp => &[gen::Field::Reason, gen::Field::Value],
+            Kind::Hdr => &[gen::Field::Value],
+            Kind::Chunk => &[gen::Field::ChunkExt],
+        };
+        for &field in fields {
+            for &l in lens {
+                f(&gen::g3_message(kind, field, l, usize::MAX, 0, 0, false), Tag::G3);
+                let mut q = 0;
+                while q < l {
+                    for &v in values {
+                        f(&gen::g3_message(kind, field, l, q, v, 0, false), Tag::G3);
+                    }
+                    q += stride;
+                }
+                for &v in values {
+                    f(&gen::g3_message(kind, field, l, l - 1, v, 0, false), Tag::G3);
                 }
             }
         }
